@@ -52,6 +52,17 @@ def full_length_soilopt(tier):
                 spec["irr"] = copy.deepcopy(A.IRR[irr])
                 spec["iwc"] = S.iwc_for(spec["soil"], "FC")
                 yield {"kind": "spec", "spec": spec, "label": {"full_soilopt": [fl["crop"], irr, opt]}}
+            # layered soils (finer layer on top / below) under the same strategies
+            for soil in ("Tunis", "clayoversand", "sandoverclay", "custom3"):
+                ss = copy.deepcopy(A.SOILS[soil])
+                ss["dz"] = None
+                ss["kw"] = {}
+                spec = S.base_spec(
+                    crop={"name": fl["crop"], "planting": fl["planting"], "harvest": None, "scale": None, "kw": {}},
+                    soil=ss, start=fl["start"], end=fl["end"], weather={"kind": "file", "name": fl["wfile"]})
+                spec["irr"] = copy.deepcopy(A.IRR[irr])
+                spec["iwc"] = S.iwc_for(ss, "FC")
+                yield {"kind": "spec", "spec": spec, "label": {"full_layered": [fl["crop"], irr, soil]}}
 
 
 def scenarios(tier, seed=0):
